@@ -7,6 +7,9 @@ from . import efx, lattice, tlc, tracecheck
 from .common import MachineryError
 
 
+SKIPPED = {"edits": 0}      # histories cut short because a value no longer fits TLC's 32-bit integers (reported in evidence)
+
+
 def classify_raise(ex):
     msg = str(ex)
     if "negative cumulative storage need" in msg:
@@ -267,7 +270,11 @@ def edited_events(ns, seeds, n_edits, theorems=(), **gen_kw):
                 efx.apply_edit_live(ns, model, live, edit)
                 return live
             model2 = efx.apply_edit_abstract(model, edit)
-            ev, _ = model_event(ns, tid, k, model2, I2, live=do, theorems=theorems)
+            try:
+                ev, _ = model_event(ns, tid, k, model2, I2, live=do, theorems=theorems)
+            except lattice.OffLattice:
+                SKIPPED["edits"] += 1    # a value left the integer range TLC can represent: the history stops here
+                break
             ev["seed"], ev["edit"] = seed, edit
             events.append(ev)
             if ev["raised"] != "none":
